@@ -19,7 +19,9 @@ Apis == {
   [name |-> "disk.index.name",      t |-> Template(<<>>, <<"index:">>, TRUE, TRUE)],
   [name |-> "proto.ribbit",         t |-> Template(<<>>, <<"api", "ribbit">>, FALSE, FALSE)],
   [name |-> "cdn.path",             t |-> [Template(<<>>, <<"cdn">>, FALSE, FALSE) EXCEPT !.pre = <<"cdn">>] @@ [post |-> <<"config", "a0", "a1", "hash">>]],
-  [name |-> "storage.open",         t |-> Template(<<>>, <<>>, FALSE, FALSE)] }
+  [name |-> "storage.open",         t |-> Template(<<>>, <<>>, FALSE, FALSE)],
+  \* HardLinkContainer::create_link / remove_file: the destination is the container's directory joined with the string
+  [name |-> "hardlink.dest",        t |-> Template(<<>>, <<>>, FALSE, FALSE)] }
 
 KeysUpTo(n) == [abs : BOOLEAN, comps : UNION {[1..m -> Alphabet] : m \in 1..n}]
 
